@@ -34,6 +34,7 @@ func (e *c05Env) context() *plush.Context {
 	c.Set("q0", 0)
 	c.Set("one", []int{7})
 	c.Set("fail", func() (string, error) { e.reached = true; return "partial", ErrSentinel })
+	c.Set("vjoin", func(parts ...interface{}) string { return fmt.Sprint(parts...) })
 	c.Set("failE", func() error { e.reached = true; return ErrSentinel })
 	c.Set("failP", func() (Person, error) {
 		e.reached = true
@@ -138,6 +139,9 @@ var c05Exprs = func() []c05Expr {
 		c05Expr{"userfn-second-of-two", `uf2("ok", `, ")", false, true},
 		c05Expr{"userfn-middle-of-three", `uf3("a", `, `, "c")`, false, true},
 		c05Expr{"method-arg", "st.Echo(", ")", false, true},
+		c05Expr{"variadic-arg-first", "vjoin(", `, "c")`, false, true},
+		c05Expr{"variadic-arg-middle", `vjoin("a", `, `, "c")`, false, true},
+		c05Expr{"variadic-arg-last", `vjoin("a", "b", `, ")", false, true},
 	)
 	return l
 }()
@@ -355,6 +359,10 @@ func c05Special(t *engine.T) {
 		`A<%= for (x) in one { %><%= failafter() { %>t<% break %>u<% } %>z<% } %>B`, `A<%= for (x) in one { %><%= failafter() { %>t<% if (true) { continue } %>u<% } %>z<% } %>B`,
 		`A<%= for (x) in one { %><% failafter() { %><% break %><% } %><% } %>B`, `A<%= for (x) in one { %><%= failafter() { %>t<% } %>z<% } %>B`, `A<%= failafter() { %>t<% } %>B`,
 		`A<%= for (x) in one { %><%= blk() { %><%= failafter() { %><% break %><% } %><% } %><% } %>B`,
+		// helper blocks nested two and three deep, built-in and application helpers mixed
+		`A<%= htmlEscape("") { %>b<%= htmlEscape("") { %>c<%= fail() %>d<% } %>e<% } %>B`, `A<%= blk() { %><%= blk() { %><%= fail() %><% } %><% } %>B`,
+		`A<%= blk() { %>x<%= htmlEscape("") { %><%= blk() { %><%= fail() %><% } %><% } %>y<% } %>B`, `A<% contentFor("cn") { %><%= fail() %><% } %><%= htmlEscape("") { %><%= contentOf("cn") %><% } %>B`,
+		`A<%= blk() { %><%= if (true) { %><%= blk() { %><%= for (x) in one { %><%= fail() %><% } %><% } %><% } %><% } %>B`, `A<%= blk() { %><% let q = blk() { %><%= fail() %><% } %><% } %>B`,
 	}
 	for _, src := range blocks {
 		src := src
